@@ -566,9 +566,9 @@ class C2Profile(ConfigBlock):
             elif setting == BeaconSetting.SETTING_PROXY_BEHAVIOR:
                 pass
             elif setting == BeaconSetting.SETTING_TCP_FRAME_HEADER and value:
-                profile.set_option("tcp_frame_header", repr(value)[2:-1])
+                profile.set_option("tcp_frame_header", value)
             elif setting == BeaconSetting.SETTING_SMB_FRAME_HEADER and value:
-                profile.set_option("smb_frame_header", repr(value)[2:-1])
+                profile.set_option("smb_frame_header", value)
             elif setting == BeaconSetting.SETTING_EXIT_FUNK:
                 pass
             elif setting == BeaconSetting.SETTING_KILLDATE:
